@@ -89,6 +89,8 @@ type FuncContract struct {
 	CondEffects  []*Clause
 	CallRequires []*Clause
 	CallAssumes  []*Clause
+	Yields       []*Clause         // LEN, KEY, VAL of the iterator the function returns
+	RangeFuncInv map[int][]*Clause // invariants of range-over-func loops, by ordinal
 }
 
 type CallbackContract struct {
@@ -339,6 +341,36 @@ func parseContracts(fset *token.FileSet, f *ast.File, pkgPath string) ([]*FuncCo
 				default:
 					return nil, fmt.Errorf("%s: unknown loop clause %q", fset.Position(cm.Pos()), k)
 				}
+			case "yields":
+				// yields LEN ; KEY ; VAL : the function returns an iterator (iter.Seq2) that yields exactly LEN pairs, the
+				// i-th being (KEY, VAL) with `rangeindex` standing for i, in order, until the consumer stops; all three
+				// are expressions over the function's parameters, evaluated when the iterator is created
+				parts := strings.Split(rest, " ; ")
+				if len(parts) != 3 {
+					return nil, fmt.Errorf("%s: yields LEN ; KEY ; VAL", fset.Position(cm.Pos()))
+				}
+				for _, p := range parts {
+					pc := *cl
+					pc.Kind, pc.Text = "yields", strings.TrimSpace(p)
+					cur.Yields = append(cur.Yields, &pc)
+				}
+			case "rangefunc":
+				// rangefunc N invariant EXPR : invariant of the N-th `for ... range <iterator function>` loop of the function
+				// (`rangeindex` = number of pairs consumed so far)
+				fs := strings.SplitN(rest, " ", 3)
+				n, err := strconv.Atoi(fs[0])
+				if len(fs) != 3 || err != nil {
+					return nil, fmt.Errorf("%s: rangefunc N invariant EXPR", fset.Position(cm.Pos()))
+				}
+				k, lab := splitLabel(fs[1])
+				if k != "invariant" {
+					return nil, fmt.Errorf("%s: rangefunc N invariant EXPR", fset.Position(cm.Pos()))
+				}
+				cl.Kind, cl.Label, cl.Text = "invariant", lab, strings.TrimSpace(fs[2])
+				if cur.RangeFuncInv == nil {
+					cur.RangeFuncInv = map[int][]*Clause{}
+				}
+				cur.RangeFuncInv[n] = append(cur.RangeFuncInv[n], cl)
 			case "callback":
 				// NAME(args) KIND EXPR
 				i := strings.Index(rest, ")")
